@@ -430,6 +430,16 @@ class Ctx:
         os.makedirs(self.scratch, exist_ok=True)
         self.counts = {}
         self.reported = {}
+        # replay mode (./check Cxx --replay F for the modules that re-run their check on the replayed input):
+        # nothing is written under /verif (no evidence, replay files go to the scratch directory)
+        self.replaying = False
+        self.replay_model = None
+        self.replay_obj = {}
+
+    def start_replay(self, obj):
+        self.replaying = True
+        self.replay_obj = obj.get("replay", {}) if isinstance(obj.get("replay"), dict) else {}
+        self.replay_dir = os.path.join(self.scratch, "replays")
 
     @property
     def quick(self):
@@ -510,6 +520,9 @@ class Ctx:
         ev = {"property_id": self.prop, "tier": self.tier, "seed": self.seed, "level": self.level,
               "coverage": c, "assumptions": self.assumptions, "wall_s": round(time.time() - self.t0, 2),
               "violations": len(self.violations)}
+        if self.replaying:
+            shutil.rmtree(self.scratch, ignore_errors=True)
+            return 1 if self.violations else 0
         os.makedirs(os.path.join(OUT, "evidence"), exist_ok=True)
         tmp = os.path.join(OUT, "evidence", ".%s.json.tmp" % self.prop)
         json.dump(ev, open(tmp, "w"), indent=1, default=str)
